@@ -48,6 +48,9 @@ REGISTRY = dict(
     technique="machine-checked proof in Coq (field identities over Q, induction over batch lists and histories) + regenerated-fragment interface lemmas + differential correspondence",
 )
 
+COV_TARGETS = {"stable_baselines3/common/vec_env/vec_normalize.py": None, "stable_baselines3/common/running_mean_std.py": None,
+               "stable_baselines3/common/vec_env/__init__.py": ["sync_envs_normalization"]}
+
 HEADER = """From Coq Require Import List QArith ZArith Bool.
 From SB3V Require Import Lib.QUtil Model.RunningMoments Model.VecNorm.
 Import ListNotations.
@@ -712,6 +715,9 @@ def run_cases(chk, cases):
 def main():
     chk = Check("C15", groups=["runningmoments"])
     chk.build_props()
+    from harness import c18_branchcov
+
+    cov = c18_branchcov.maybe_start(COV_TARGETS)   # VERIF_BRANCHCOV=1: which lines of the anchored functions this run executes
     n_cases = int(os.environ.get("VERIF_NCASES", 0)) or (300 if chk.tier == "quick" else 2400)
     cases = []
     corpus = os.path.join(common.VERIF, "corpus", "C15.jsonl")
@@ -768,6 +774,8 @@ def main():
         "a VecNormalize constructed with norm_obs=False has no obs_rms; switching norm_obs on afterwards makes the next reset/step raise AttributeError: reproduced from corpus-late-norm-obs and reported as norm-obs-enabled-after-construction-raises; the generic generator toggles norm_obs only on wrappers constructed with norm_obs=True (histories in the class are recognised by a precise predicate)",
         "deepcopy in normalize_obs, pickle and sync_envs_normalization are tied by correspondence and the Python oracle only (the terminal-observation transform is in the model: step_outputs)",
     ]
+    if cov is not None:
+        chk.notes["branch_coverage"] = cov.report()
     return chk.finish()
 
 
